@@ -52,7 +52,29 @@ func (g *c07Engine) runHist(bin string, hp *histPlan, env ...string) (*histResul
 	return &res, p, nil
 }
 
+// scriptPanics: the history's device is scripted to die (its Read panics) at some point.
+func scriptPanics(hp *histPlan) bool {
+	devs := []*plan.Dev{hp.Dev}
+	for i := range hp.Ops {
+		devs = append(devs, hp.Ops[i].Dev)
+	}
+	for _, d := range devs {
+		if d == nil {
+			continue
+		}
+		for _, st := range d.Script {
+			if st.E == "panic-str" || st.E == "panic-err" {
+				return true
+			}
+		}
+	}
+	return false
+}
+
 func crashVerdict(hp *histPlan, p Proc) *histVerdict {
+	if p.DiedOfDevicePanic() && scriptPanics(hp) {
+		return nil
+	}
 	if p.TimedOut {
 		return &histVerdict{Class: "hang", Key: "hang/" + histKey(hp.Ops, len(hp.Ops)), Detail: "the history did not finish within the time limit"}
 	}
